@@ -304,7 +304,28 @@ func runC17(c *Ctx) {
 		}
 		confs = append(confs, cf)
 	}
-	for _, p := range []string{"zoo1.lua", "sub/", "sub/zo.*lua", "nomatch/", "other/zoo4.lua", "sub/deep/", "syn.*lua", "(", "["} {
+	// generated regular expressions: a real path of the zoo with a stretch replaced by `.*` / a character class, ending in
+	// `\.lua`, `.lua` or `lua` (a pattern ending in `.lua` is classified as a file pattern, anything else as a folder pattern)
+	var genPats []string
+	{
+		var rels []string
+		for rel := range zoo {
+			if strings.HasSuffix(rel, ".lua") {
+				rels = append(rels, rel)
+			}
+		}
+		sort.Strings(rels)
+		rp := root.Fork(0x70617473)
+		for i := 0; i < c.N(10, 60); i++ {
+			rel := rels[rp.Intn(len(rels))]
+			stem := strings.TrimSuffix(rel, ".lua")
+			a := rp.Intn(len(stem))
+			b := a + rp.Intn(len(stem)-a)
+			mid := rp.Pick([]string{".*", ".+", "[a-z0-9/]*", "\\w*"})
+			genPats = append(genPats, stem[:a]+mid+stem[b:]+rp.Pick([]string{"\\.lua", ".lua", "lua", "\\.lua", ""}))
+		}
+	}
+	for _, p := range append([]string{"zoo1.lua", "sub/", "sub/zo.*lua", "nomatch/", "other/zoo4.lua", "sub/deep/", "syn.*lua", "(", "[", "sub/zo.*\\.lua", "zoo[12]\\.lua", "deep/.*3\\.lua"}, genPats...) {
 		cf := c17AllOn()
 		cf.IgnoreErr = []string{p}
 		cf.Label = "ignore-errors:" + p
@@ -386,6 +407,19 @@ func runC17(c *Ctx) {
 		}
 		ws.Remove()
 		c.Count("configurations_checked_"+j.mode, 1)
+		// a regular expression that also matches inside the scratch workspace's own directory path (".../ws/syn1.lua" for
+		// `s.+yn1`) selects different files depending on whether it is applied to the relative or to the full path; the
+		// documentation does not say which, so such a configuration asserts nothing
+		ambiguous := false
+		for rel := range files {
+			if c17Excluded(rel, cf.IgnoreErr) != c17Excluded(strings.TrimPrefix(ws.Root, "/")+"/"+rel, cf.IgnoreErr) {
+				ambiguous = true
+			}
+		}
+		if ambiguous {
+			c.Count("dont_care_pattern_matches_scratch_directory_path", 1)
+			return
+		}
 		if invalidPat {
 			// malformed settings must be rejected or ignored without taking the server down: alive is all that is asserted
 			c.Count("invalid_pattern_survived", 1)
@@ -419,7 +453,7 @@ func runC17(c *Ctx) {
 	c.Sample(map[string]interface{}{"conf": confs[0], "modes": []string{"init", "change", "json"}})
 	c.Sample(map[string]interface{}{"conf": confs[len(confs)-20]})
 	c.Finish("a zoo workspace (6 files in 4 directories) that triggers diagnostic types 1-10 and 12-21 (22, 26 in config-file mode) in several files; configurations: each single "+
-		"flag off, each single flag on, random subsets, master off, error-ignore patterns (file, folder, regex, non-matching, invalid) and analysis-ignore patterns; each "+
+		"flag off, each single flag on, random subsets, master off, error-ignore patterns (file, folder, fixed and generated regular expressions ending in `\\.lua`, `.lua`, `lua` or nothing, non-matching, invalid) and analysis-ignore patterns; each "+
 		"delivered as init options, as a later didChangeConfiguration and as luahelper.json; the published view must equal the all-enabled view of the same delivery mode "+
 		"filtered by the configuration. distinct_nontrivial = distinct (mode, configuration) pairs whose view matched exactly", 30)
 }
